@@ -1,5 +1,6 @@
 import Tyme.Driver.Util
 import Tyme.Driver.P01
+import Tyme.Driver.P13
 import Tyme.Driver.P17
 import Tyme.Driver.P14b
 import Tyme.Driver.P15
@@ -41,6 +42,7 @@ def execOpAll (op : String) (a : List Int) : String :=
     <|> (P15.execOp op a)
     <|> (P14b.execOp op a)
     <|> (P17.execOp op a)
+    <|> (P13.execOp op a)
     -- DISPATCH-EXEC   <|> (Pxx.execOp op a)
   match r with
   | none => "bad-op"
@@ -67,6 +69,7 @@ def specOpAll (op : String) (a : List Int) : String :=
     <|> (P15.specOp op a)
     <|> (P14b.specOp op a)
     <|> (P17.specOp op a)
+    <|> (P13.specOp op a)
     -- DISPATCH-SPEC   <|> (Pxx.specOp op a)
   match r with
   | none => "n/a"
@@ -92,6 +95,7 @@ def runEnumAll (name : String) (args : List String) (out : IO.FS.Stream) : Optio
   <|> (P15.runEnum name args out)
   <|> (P14b.runEnum name args out)
   <|> (P17.runEnum name args out)
+  <|> (P13.runEnum name args out)
   -- DISPATCH-ENUM   <|> (Pxx.runEnum name args out)
 
 def lineWith (f : String → List Int → String) (line : String) : String :=
